@@ -29,7 +29,12 @@ fuzz_target!(|data: &[u8]| {
             None => panic!("blob returned although the ABI words describe no slice"),
         }
     }
-    let _ = decode_compressed_full_report(data);
+    // A snappy header may declare up to 4 GiB of output; the decoder allocates it up front. That is an
+    // allocation-size question, not a decoding property: skip declared sizes above 1 MiB (on-chain the
+    // 32 KiB heap makes such inputs fail long before).
+    if snap::raw::decompress_len(data).map(|n| n <= 1 << 20).unwrap_or(true) {
+        let _ = decode_compressed_full_report(data);
+    }
     if let Ok(report) = decode(data) {
         if let Ok(p) = PriceFeedPrice::from_chainlink_report(&report) {
             assert!(p.min_price() <= p.price() && p.price() <= p.max_price(), "order not preserved");
